@@ -29,6 +29,7 @@ PID = "C07"
 PROOF_FILES = ["theories/Props/C07.v", "theories/Checker/Pen.v", "theories/Checker/Narrow.v",
                "theories/Checker/Shapes.v", "theories/Spec/Convex.v"]
 KINDS_POLY = ["box", "hull", "mesh"]
+MAX_TREE_NODES = dict(quick=600, thorough=3000)
 CAP_WHAT = ("epa() with its default capacities (max_faces=64) raises AssertionError in Polytope.extend_with_point on an "
             "overlapping pair of polytopes with at most 30 vertices each")
 F2_WHAT = ("gjk() handed epa() its 4x3 work array although it stopped with fewer than 4 live points "
@@ -48,6 +49,7 @@ def make_case(rng, tier, k):
     s1, s2, meta = npn.gen_overlapping(rng, tier, kinds, margin_prob=0.1 if smooth else 0.0)
     flip = bool(k % 2)
     meta["flip"] = flip
+    meta["tier"] = tier
     meta["polytopes"] = bool(npn.is_polytope(s1) and npn.is_polytope(s2))
     return dict(c1=s1, c2=s2, ops=[dict(fn="epa", flip=flip)], meta=meta)
 
@@ -136,6 +138,9 @@ class Judge:
             self.tree_fail = str(e)[:200]
             return None
         self.tree_stats = st
+        if st["nodes"] > MAX_TREE_NODES.get(self.case["meta"].get("tier", "quick"), 600):
+            self.tree_fail = f"cone tree has {st['nodes']} nodes (not evaluated in this tier)"
+            return None
         return "tree", (f"andb (depth_ge_cert {self.A} {self.B} {ws} {te} {nw._q(rho)}) "
                         f"(len_le {nw.vq(self.mtv)} ({nw._q(rho)} + {nw._q(self.tau)}))")
 
@@ -211,7 +216,7 @@ def run(tier, seed, replay=None):
         if corpus.exists():
             for f in sorted(corpus.glob("*.json")):
                 cases.append(json.loads(f.read_text())["case"])
-        n = 260 if tier == "quick" else 2400
+        n = 200 if tier == "quick" else 2000
         seeds = [(R.rng.getrandbits(64), tier, k) for k in range(n)]
         cases += npn.par_map(PID, "c07", "make_case_seeded", seeds, tag="gen")
     for c in cases:
